@@ -141,7 +141,7 @@ def find_sub(blocks: list, sub: list) -> int:
     return -1
 
 
-PATCH_NAMES = ["p.ips", "hack [T+Eng1.1].ips", "patch[1].ips", "fix (v2).ips", "a*b.ips", "what?.ips", "sub dir/p.ips", "caf\u00e9.ips", "100%.ips", "p.ips.bak", "~p.ips", "-p.ips", "{p}.ips"]
+PATCH_NAMES = ["p.ips", "hack [T+Eng1.1].ips", "patch[1].ips", "fix (v2).ips", "a*b.ips", "what?.ips", "sub dir/p.ips", "caf\u00e9.ips", "100%.ips", "p.ips.bak", "~p.ips", "-p.ips", "{p}.ips", "assets/../patches/fix.ips", "assets/../fix.ips"]
 
 
 def _rename_patch(prog: list, name: str) -> list:
@@ -169,6 +169,11 @@ def check_wellformed(res: Res, rng: random.Random, recs: list[dict], delta: int,
             import re as _re
             decoy_name = _re.sub(r"\[(.)[^\]]*\]", r"\1", name)
             p1["files"][decoy_name] = ips.build([{"off": 0x123, "data": b"\xDE\xC0\xDE"}])
+        if name.startswith("assets/../"):
+            # `assets` is a link to a directory elsewhere: the name means what the file system says it means (the parent of the link's target)
+            real = "shared/" + name[len("assets/../"):]
+            p1["files"] = {real: raw, "shared/assets/readme.txt": "linked\n", "assets": {"__symlink__": "shared/assets"},
+                           name[len("assets/../"):]: ips.build([{"off": 0x123, "data": b"\xDE\xC0\xDE"}])}
         res.see("patch_file_names", name)
     p0 = build_program(rng, delta, False, plan_)
     wit = {"kind": "wellformed", "sized": plan_.get("sized"), "records": [{"off": r["off"], **({"rle": list(r["rle"])} if "rle" in r else {"data": r["data"].hex() if len(r["data"]) <= 64 else f"len={len(r['data'])}"})} for r in recs],
